@@ -197,7 +197,12 @@ def compare_noref(case, mout, iout):
             if gi >= n or ((gv != nall[gi]) if exact else (abs(gv - nall[gi]) > 1e-9 * scale)):
                 return "%s entry %r@%d, contribution of that index w.r.t. the implicit reference is %s" % (iname, gv, gi, nall[gi] if gi < n else "?")
         nsel = min(keff, ncand)
-        if [i for _, i in got[nsel:]] != [i for _, i in want[nsel:]]:
+        # which of several COPIES of an extreme point is appended is decided by std::sort on (f1, f2) (the index is not part of the
+        # comparator: unspecified order among equal points; seeds 99 / thorough: 17 points, three distinct ones): the appended
+        # entries are compared as points, their indices only where the extreme point occurs once
+        gx, wx = [i for _, i in got[nsel:]], [i for _, i in want[nsel:]]
+        if any(gi >= n for gi in gx) or [list(P[i]) for i in gx] != [list(P[i]) for i in wx] or \
+           any(gi != wi and [list(q_) for q_ in P].count(list(P[wi])) == 1 for gi, wi in zip(gx, wx)):
             return "%s appended extreme points %s, model %s" % (iname, got[nsel:], want[nsel:])
         if len(set(i for _, i in got)) != len(got): return "%s indices not distinct" % iname
     return None
